@@ -262,6 +262,13 @@ func executePlan(prop, tier string, seed uint64, plan *Plan, nproc int, t0 time.
 			return 2, err
 		}
 		if !confirmed {
+			if ev, ok := selfEvident(prop, d.death); ok {
+				ev.Seed = d.job.Seed
+				ev.V.Detail = "(did not recur when the batch was re-run: depends on thread timing or on state carried between runs)\n" + ev.V.Detail
+				fv, confirmed = ev, true
+			}
+		}
+		if !confirmed {
 			return 2, infra("worker died on job %d (%s) but the death did not reproduce in a fresh process; refusing to turn it into a verdict.\n%s", d.job.ID, d.job.Scen, d.death.Error())
 		}
 		sig := fv.V.Sig()
